@@ -340,6 +340,7 @@ def gen_str(full, agg=False):
 
 def c01_cases(thorough):
   dbs = dbs_ab(2)
+  dbs3 = dbs_ab(3) if thorough else None      # thorough: all multisets of <=3 rows per table (35 x 10 = 350 databases) for the smaller families
   gens = [gen_cq(3 if thorough else 2), gen_cons(2 if thorough else 1), gen_disj(thorough), gen_expr(thorough), gen_reccol(), gen_func(thorough), gen_inj(thorough)]
   seen = set()
   for g in gens:
@@ -347,7 +348,7 @@ def c01_cases(thorough):
       t = c.text()
       if t in seen: continue
       seen.add(t)
-      c.dbs = dbs; c.fact_dbs = FACT_DBS_AB
+      c.dbs = dbs3 if (thorough and c.family in ('CONS', 'DISJ', 'EXPR', 'FUNC', 'INJ')) else dbs; c.fact_dbs = FACT_DBS_AB
       yield c
   for c in gen_str(thorough):
     c.dbs = semcheck.dbs_abs(); c.fact_dbs = semcheck.FACT_DBS_ABS
@@ -605,7 +606,7 @@ def sub_exprs(e):
 
 
 def c02_cases(thorough):
-  dbs = dbs_ab(2) + TIE_DBS_AB
+  dbs = (dbs_ab(3) if thorough else dbs_ab(2)) + TIE_DBS_AB
   seen = set()
   for c in gen_str(thorough, agg=True):
     c.dbs = semcheck.dbs_abs(); c.fact_dbs = semcheck.FACT_DBS_ABS
